@@ -2,6 +2,7 @@
 from __future__ import annotations
 
 import ast
+import re
 
 from sa.absint import AObj, Interp, Opaque, Tok, to_text
 from sa.cbmodel import Runner
@@ -136,6 +137,25 @@ def r15_2(ctx):
         fi, outs = r.run(cb, lambda r=r, mk=mk: mk(r))
         obs = sorted({("raises " + str(o.value)[:30]) if o.kind == "raise" else ("returns " + (o.value.cls if isinstance(o.value, AObj) else type(o.value).__name__)) for o in outs})
         ctx.check(f"a void call as {desc} is rejected", bool(outs) and all(o.kind == "raise" for o in outs), "raises", "; ".join(obs), fn_where(idx, fi))
+    # the LAST item of a statement-expression without a value (a void call, an assignment) is a statement of the block: it must be
+    # handed up with the statements before it, not taken for the block's value (which is never sequenced)
+    from .c02 import lab as _lab
+    from .c05 import eff as _eff
+
+    for desc, last in (("a void call", lambda r: void_call(r, "items[1]")), ("an assignment", lambda r: _eff(r, "items[1]"))):
+        r = Runner(idx)
+        fi, outs = r.run("gcc_extended_expr", lambda r=r, last=last: [_eff(r, "items[0]"), last(r)])
+        obs = []
+        ok = bool(outs)
+        for o in outs:
+            if o.kind == "raise":
+                obs.append("raises")  # rejected: not silent
+                continue
+            v = o.value
+            members = [_lab(x) for x in v] if isinstance(v, list) else [_lab(v)]
+            obs.append(str(members)[:80])
+            ok = ok and isinstance(v, list) and members == ["items[0]", "items[1]"]
+        ctx.check(f"statement-expression whose last item is {desc}", ok, "[items[0], items[1]] handed up as statements (or an exception)", " | ".join(sorted(set(obs))), fn_where(idx, fi))
     # the productions of these constructs reach those callbacks (not inlined away, not raw trees)
     for rname, first in (("labeled_stmt", None), ("jump_stmt", None), ("iteration_stmt", None)):
         shapes = {gm.shape(a, cbs)[0] for a in gm.rules[rname]}
@@ -377,3 +397,41 @@ def r15_8(ctx):
     macros = json.loads(mp.read_text()).get("macros", {})
     voids = sorted(k for k, v in macros.items() if str(v.get("return_type")) == "void")
     ctx.check("bundled macro table read", len(macros) >= 20, ">= 20 macros", f"{len(macros)} macros, void: {voids}", "Resources/Hexagon/qemu_rzil_macros.json", nontrivial=False)
+
+
+@rule("R15.9", "C15", "what is returned for an instruction is compiled from the trees handed in: no path returns a stored result; constant folders discard an operand only when nothing hangs on it (a temporary of `i++` / a call carries a pending effect)", min_instances=8)
+def r15_9(ctx):
+    from .c09 import r09_3
+    from .c13 import r13_5
+
+    r13_5(ctx)
+    # the arm a constant ?: condition does not select is rightly not evaluated (C11 6.5.15p4): its removal is no loss here
+    r09_3(ctx, skip=("simplify_conditional_expr",))
+
+
+@rule("R15.10", "C15", "the lexer drops nothing but white space: every %ignore terminal matches white-space characters only", min_instances=1)
+def r15_10(ctx):
+    gm = get_grammar(ctx.env)
+    ctx.need(gm.ignore, "the grammar ignores no terminal at all (white space would be significant)")
+    probes = ["{ RdV = 1; /* a */ RsV = 2; /* b */ RtV = 3; }", "RdV = 1; // note\nRsV = 2;", "a /* x */ b", "#if 0\nx = 1;\n#endif", "x = \"a b\";", " \t\n", "a\\\nb", "/**/", "//", "x;;y"]
+    for name in sorted(gm.ignore):
+        t = gm.terminals.get(name)
+        ctx.need(t is not None, f"ignored terminal {name} not found")
+        if t["kind"] == "str":
+            swallowed = [t["value"]] if t["value"].strip() else []
+        else:
+            fl = 0
+            for f in t["flags"]:
+                fl |= {"i": re.I, "m": re.M, "s": re.S, "x": re.X}.get(f, 0)
+            try:
+                rx_ = re.compile(t["value"], fl)
+            except re.error as e:
+                ctx.need(False, f"ignored terminal {name} does not compile: {e}")
+            swallowed = []
+            for text in probes:
+                for pos in range(len(text)):
+                    m = rx_.match(text, pos)
+                    if m and m.group(0).strip():
+                        swallowed.append(m.group(0)[:40])
+        ctx.check(f"%ignore {name}", not swallowed, "matches white space only", f"swallows {sorted(set(swallowed))[:3]}: code between two comments (or after `//`) would vanish without an exception" if swallowed else "white space only",
+                  gm.where(name) if name in gm.text else gm.where("IDENTIFIER"))
